@@ -234,8 +234,8 @@ func init() {
 			for _, pe := range propTable {
 				host := hostFor(pe.Name)
 				for _, h := range hostile {
-					yield(J{"k": "decode", "ex": -1, "mut": "literal@" + pe.Name, "doc": map[string]interface{}{"type": host, pe.Name: h}})
-					yield(J{"k": "decode", "ex": -1, "mut": "literalArr@" + pe.Name, "doc": map[string]interface{}{"type": host, pe.Name: []interface{}{h, h}}})
+					yield(J{"k": "decode", "ex": -1, "mut": "literal@" + pe.Name, "doc": map[string]interface{}{"@context": allCtx, "type": host, pe.Name: h}})
+					yield(J{"k": "decode", "ex": -1, "mut": "literalArr@" + pe.Name, "doc": map[string]interface{}{"@context": allCtx, "type": host, pe.Name: []interface{}{h, h}}})
 				}
 			}
 			// arbitrary byte strings
